@@ -1,5 +1,4 @@
-import OpusProofs.ExtParseExt
-import OpusProofs.ExtNoRepeat
+import OpusProofs.ExtRepFinal
 /-
   Property C16 — "Packet extensions round-trip through generate, parse and repacketize".
 
@@ -125,33 +124,49 @@ theorem generate_bad_arg (dry : Bool) (len : Int) (exts : Array Ext) (nbFrames :
         0 ≤ e.frame ∧ e.frame < max nbFrames 0 ∧ 3 ≤ e.id ∧ e.id ≤ 127) :=
   ⟨generate_badArg dry len exts nbFrames pad hl hn0, fun _ h => generate_ok_valid h⟩
 
-/-
-  Full statement (P1 `generate_parse`), NOT proved — listed in `UNPROVED` of tools/props/C16.py:
-
-    theorem generate_parse (exts : Array Ext) (nbF : Nat) (hnf : nbF ≤ 48) (hv : AllValid exts nbF) (len) (hlen : size ≤ len) :
-      ∃ out refs, generate false len exts nbF false = .ok out ∧ parse out.toList out.size cap nbF = .ok refs ∧
-        (sortByFrame refs nbF).map (ExtRef.toExt out.toList) = (sortedFrom exts nbF 0).map normExt
-
-  i.e. without the hypothesis `NoRepeat`.  What is missing is the invariant that ties the generator's
-  `frame_repeat_idx` / `last_long_idx` to the iterator's `repeat_data` / `last_long` /
-  `trailing_short_len` when the "repeat these extensions" indicator (ID 2) is used.
--/
-
-/-- **generate_parse (partial: lists on which the generator repeats nothing).**  For every array of
-    valid extensions (IDs 3..127, frames < nb_frames ≤ 48, short IDs with 0–1 payload bytes, long IDs
-    with any payload, any array order) such that no frame's first extension is repeat-eligible
-    (`NoRepeat`: e.g. `nb_frames = 1`, or an empty last frame, or differing first IDs), and every
-    sufficiently large buffer: `generate` succeeds and writes the canonical serialisation of the stable
-    sort by frame; `parse` on those bytes succeeds and returns exactly the sorted list — per frame, in the
-    original per-frame order, with identical IDs, lengths and payload bytes. -/
-theorem generate_parse_partial (exts : Array Ext) (nbF : Nat) (hnf : nbF ≤ 48) (hv : AllValid exts nbF)
-    (hnr : NoRepeat exts nbF) (len : Int)
-    (hlen : ((serBytes 0 (sortedFrom exts nbF 0)).length : Int) ≤ len) (cap : Int) (hcap : (exts.size : Int) ≤ cap) :
-    let bs := serBytes 0 (sortedFrom exts nbF 0)
+/-- **generate_parse (full round trip, repeat mechanism included).**  For EVERY array of valid extensions
+    (IDs 3..127, frames < nb_frames ≤ 48, short IDs with 0–1 payload bytes, long IDs with any payload, any
+    array order, any repeat-eligible pattern) and every sufficiently large buffer: `generate` succeeds;
+    `parse` on the bytes it wrote succeeds and returns exactly one entry per extension; and, frame by
+    frame, the entries are the extensions of that frame in their original order with identical IDs,
+    lengths and payload bytes (`normExt e` = `e` with its payload cut to `len` bytes).
+    `serAll` (OpusProofs/ExtRepSpec.lean) is the list-level description of what the generator writes:
+    per frame the longest repeatable prefix, the indicator `04`/`05`, the repeated payloads of all later
+    frames (last long one without length bytes when `L = 0`), the rest of the frame. -/
+theorem generate_parse (exts : Array Ext) (nbF : Nat) (hnf : nbF ≤ 48) (hv : AllValid exts nbF) (len : Int)
+    (hlen : ((serAll exts.size (queues exts nbF) 0 0).length : Int) ≤ len) (cap : Int) (hcap : (exts.size : Int) ≤ cap) :
+    let bs := serAll exts.size (queues exts nbF) 0 0
     generate false len exts nbF false = .ok bs.toArray ∧
     ∃ refs, parse bs bs.length cap nbF = .ok refs ∧ refs.length = exts.size ∧
-      refs.map (ExtRef.toExt bs) = (sortedFrom exts nbF 0).map normExt :=
-  generate_parse_norepeat exts nbF hnf hv hnr len hlen cap hcap
+      refs.map (ExtRef.toExt bs) = (expAll (queues exts nbF)).map normExt ∧
+      ∀ g, (refs.filter (fun r => r.frame = g)).map (ExtRef.toExt bs) = (allOf exts g).map normExt :=
+  generate_parse_full exts nbF hnf hv len hlen cap hcap
+
+/-- **generate_parse (through `parse_ext`).**  On the generated bytes `count_ext` reports the number of
+    extensions, and `parse_ext` with its per-frame counts returns all of them sorted by frame, in the
+    original per-frame order (`sortedFrom exts nbF 0` = stable sort of the array by frame), with
+    identical payloads. -/
+theorem generate_parse_ext (exts : Array Ext) (nbF : Nat) (hnf : nbF ≤ 48) (hv : AllValid exts nbF) (len : Int)
+    (hlen : ((serAll exts.size (queues exts nbF) 0 0).length : Int) ≤ len) (cap : Int) (hcap : (exts.size : Int) ≤ cap) :
+    let bs := serAll exts.size (queues exts nbF) 0 0
+    generate false len exts nbF false = .ok bs.toArray ∧
+    ∃ (counts : List Nat) (out : List ExtRef), countExt bs bs.length nbF = .ok (exts.size, counts) ∧
+      parseExt bs bs.length cap (counts.map Int.ofNat) nbF = .ok (out.map some) ∧
+      out.map (ExtRef.toExt bs) = (sortedFrom exts nbF 0).map normExt :=
+  generate_parse_ext_full exts nbF hnf hv len hlen cap hcap
+
+/-- **fixed_point.**  parse ∘ generate ∘ parse = parse: whatever bytes `x` parse successfully, generating
+    from the parsed extensions and parsing the result gives, frame by frame and in order, extensions with
+    the same IDs, lengths and payload bytes as the first parse. -/
+theorem fixed_point (x : Bytes) (hb : BytesOk x) (nbF : Nat) (hnf : nbF ≤ 48) (cap0 : Int) (hcap0 : 0 ≤ cap0)
+    (l : List ExtRef) (hp : parse x x.length cap0 nbF = .ok l) (len : Int) (cap : Int) (hcap : (l.length : Int) ≤ cap) :
+    let exts := (l.map (ExtRef.toExt x)).toArray
+    let bs := serAll exts.size (queues exts nbF) 0 0
+    (bs.length : Int) ≤ len →
+    generate false len exts nbF false = .ok bs.toArray ∧
+    ∃ refs, parse bs bs.length cap nbF = .ok refs ∧ refs.length = l.length ∧
+      ∀ g, (refs.filter (fun r => r.frame = g)).map (ExtRef.toExt bs) = (l.filter (fun r => r.frame = g)).map (ExtRef.toExt x) :=
+  parse_generate_parse x hb nbF hnf cap0 hcap0 l hp len cap hcap
 
 /-- **Reader ∘ canonical writer.**  Independently of the generator model: for every frame-ordered list
     of valid extensions, iterating/parsing its canonical serialisation (`serBytes`: separators `02` /
@@ -192,8 +207,15 @@ def exExts2 : Array Ext :=
   #[{ id := 40, frame := 1, data := List.replicate 300 9, len := 300 }, { id := 5, frame := 0, data := [7], len := 1 },
     { id := 5, frame := 1, data := [], len := 0 }, { id := 100, frame := 1, data := [1, 2, 3], len := 3 }]
 example : AllValid exExts2 3 := allValid_of_all _ _ (by decide +kernel)
-example : NoRepeat exExts2 3 := noRepeat_last_empty _ _ (by decide +kernel)
-example : (serBytes 0 (sortedFrom exExts2 3 0)).length = 311 := by decide +kernel
 example : (sortedFrom exExts2 3 0).map (·.id) = [5, 40, 5, 100] := by decide +kernel
+/-- `exExts` (above) is repeat-eligible: the generator writes a repeat block for it, and it is valid. -/
+example : AllValid exExts 2 := allValid_of_all _ _ (by decide +kernel)
+example : blockR (allOf exExts 0) [allOf exExts 1] = 2 := by decide +kernel
+example : (serAll exExts.size (queues exExts 2) 0 0).length = 270 := by decide +kernel
+/-- hypotheses of `fixed_point`: bytes that parse (shown through the round trip itself). -/
+example : ∃ l, parse (serAll exExts.size (queues exExts 2) 0 0) (serAll exExts.size (queues exExts 2) 0 0).length 10 2 = .ok l ∧
+    l.length = exExts.size := by
+  obtain ⟨_, refs, h1, h2, _⟩ := generate_parse exExts 2 (by decide) (allValid_of_all _ _ (by decide +kernel)) 1000 (by decide +kernel) 10 (by decide +kernel)
+  exact ⟨refs, h1, h2⟩
 
 end OpusProps.C16
